@@ -1,6 +1,7 @@
 import TypstyleModel.Props.C07
 import TypstyleModel.Proofs.Monad
 import TypstyleModel.Proofs.Tokens
+import TypstyleModel.Proofs.EndToEnd
 /-! C08 — prose is left untouched (printer side).  The line representation of a piece of markup
 loses, duplicates and reorders no node; inside a line a space is printed as one blank (never a break),
 a line ends with exactly its number of line feeds, text leaves are copied, and an expression on a line
@@ -108,5 +109,11 @@ theorem C08_prose_preserved_all_layouts (root : Node) (d : Twin.Doc) (h : proseC
     (u : Nat) (m : Mode) (xs : List Atom) (hl : Lay m (d.fam u) xs) :
     proseText xs = (specProse (prepare root)).toList :=
   certified_prose root d h u m xs hl
+
+/-- T8.6 (on the rendered text): a run of prose — one atom — occurs character for character in the text the renderer produces at any width. -/
+theorem C08_prose_text_occurs_in_rendered_output (w : Nat) (d : Doc) (s : String) (t : Tag)
+    (h : Atom.txt s t ∈ best w 0 [⟨0, .brk, d⟩]) :
+    s.toList <:+: (pretty w d).toList :=
+  render_infix _ _ h
 
 end Typstyle
